@@ -930,6 +930,45 @@ func genDialer(repo string) *leanFile {
 		})
 		l.Strs("doneCalls", doneCalls, "dial(): calls made by the done closure, in order")
 	}
+	// conn.go checkInterface: the conjuncts of the test that marks an address as the interface's
+	// IPv6 link-local address (`foundLL = true`)
+	if cf := load(repo, "internal/system/conn.go"); cf != nil {
+		if fd := cf.fn("checkInterface"); fd != nil {
+			var conj []string
+			ast.Inspect(fd.Body, func(n ast.Node) bool {
+				is, ok := n.(*ast.IfStmt)
+				if !ok {
+					return true
+				}
+				sets := false
+				for _, st := range is.Body.List {
+					if as, ok := st.(*ast.AssignStmt); ok && len(as.Lhs) == 1 && exprString(as.Lhs[0]) == "foundLL" && exprString(as.Rhs[0]) == "true" {
+						sets = true
+					}
+				}
+				if sets {
+					var walk func(e ast.Expr)
+					walk = func(e ast.Expr) {
+						if b, ok := e.(*ast.BinaryExpr); ok && b.Op == token.LAND {
+							walk(b.X)
+							walk(b.Y)
+							return
+						}
+						conj = append(conj, exprString(e))
+					}
+					walk(is.Cond)
+				}
+				return true
+			})
+			if conj == nil {
+				failf("conn.go: the address test of checkInterface (if … { foundLL = true }) was not found")
+			}
+			l.Strs("checkAddrConjuncts", conj, "checkInterface: conjuncts of the link-local address test")
+			l.Bool("checkExcludes4In6", indexOf(conj, "!ip.Is4In6()") >= 0, "checkInterface: the address test requires !ip.Is4In6()")
+		} else {
+			failf("conn.go: checkInterface not found")
+		}
+	}
 	return l
 }
 
